@@ -64,7 +64,8 @@ class Block:
             self.version = version.to_bytes(4, byteorder='big')
             self.version_int = version
         else:
-            self.version = to_bytes(version)
+            # Four raw bytes are the field itself, also when they happen to be hexadecimal digits in ASCII
+            self.version = version if isinstance(version, bytes) and len(version) == 4 else to_bytes(version)
             self.version_int = 0 if not self.version else int.from_bytes(self.version, 'big')
         self.prev_block = to_bytes(prev_block)
         self.merkle_root = to_bytes(merkle_root)
@@ -75,13 +76,15 @@ class Block:
             self.bits = bits.to_bytes(4, 'big')
             self.bits_int = bits
         else:
-            self.bits = to_bytes(bits)
+            # Four raw bytes are the field itself, also when they happen to be hexadecimal digits in ASCII
+            self.bits = bits if isinstance(bits, bytes) and len(bits) == 4 else to_bytes(bits)
             self.bits_int = 0 if not self.bits else int.from_bytes(self.bits, 'big')
         if isinstance(nonce, int):
             self.nonce = nonce.to_bytes(4, 'big')
             self.nonce_int = nonce
         else:
-            self.nonce = to_bytes(nonce)
+            # Four raw bytes are the field itself, also when they happen to be hexadecimal digits in ASCII
+            self.nonce = nonce if isinstance(nonce, bytes) and len(nonce) == 4 else to_bytes(nonce)
             self.nonce_int = 0 if not self.nonce else int.from_bytes(self.nonce, 'big')
         self.transactions = transactions
         self.transactions_dict = []
